@@ -187,6 +187,9 @@ func genFor(t *rapid.T, ty reflect.Type, depth int) m16.JV {
 	case k == reflect.Interface:
 		return genValue(t, depth)
 	case k == reflect.Slice || k == reflect.Array:
+		if m16.IsNumeric(ty.Elem().Kind()) && rapid.IntRange(0, 3).Draw(t, "bridgedList") == 0 {
+			return genGoList(t, ty.Elem().Kind())
+		}
 		n := rapid.IntRange(0, 4).Draw(t, "alen")
 		if k == reflect.Array && rapid.IntRange(0, 3).Draw(t, "fit") > 0 {
 			n = ty.Len()
@@ -377,6 +380,31 @@ func genCall(t *rapid.T) callCase {
 			c.Out = append(c.Out, rapid.SampledFrom(returnSamples).Draw(t, "sample"))
 		}
 	}
+	if !c.Variadic && len(c.In) >= 2 && rapid.IntRange(0, 1).Draw(t, "reentrantCase") == 0 {
+		// a later argument whose conversion calls f again while the outer call is still converting
+		at := rapid.IntRange(1, len(c.In)-1).Draw(t, "reAt")
+		c.In[at] = rapid.SampledFrom([]string{"string", "string", "any", "map[string]int", "map[string]any", "map[string]string", "S", "Inner", "*Inner"}).Draw(t, "reType")
+		var inner []m16.JV
+		for _, name := range c.In {
+			inner = append(inner, genFor(t, m16.TypeOf(name), 0))
+		}
+		var outer []m16.JV
+		okRe := false
+		for i, name := range c.In {
+			if i == at {
+				if v, ok := genReentrant(t, m16.TypeOf(name), inner); ok {
+					outer = append(outer, v)
+					okRe = true
+					continue
+				}
+			}
+			outer = append(outer, genFor(t, m16.TypeOf(name), 1))
+		}
+		if okRe {
+			c.Args = outer
+			return c
+		}
+	}
 	nIn := len(c.In)
 	nArgs := nIn
 	if c.Variadic {
@@ -494,7 +522,7 @@ var histContainers = []contSpec{
 	{Kind: "pstruct", T: "S"}, {Kind: "pstruct", T: "S"}, {Kind: "pstruct", T: "S"}, {Kind: "vstruct", T: "S"},
 	{Kind: "map", T: "map[string]int"}, {Kind: "map", T: "map[string]int8"}, {Kind: "map", T: "map[string]uint16"}, {Kind: "map", T: "map[string]float32"},
 	{Kind: "map", T: "map[string]float64"}, {Kind: "map", T: "map[string]string"}, {Kind: "map", T: "map[string]bool"}, {Kind: "map", T: "map[string]any"},
-	{Kind: "map", T: "map[int]string"}, {Kind: "map", T: "map[int8]string"}, {Kind: "map", T: "map[uint16]int"}, {Kind: "map", T: "StrIntM"},
+	{Kind: "map", T: "map[int]string"}, {Kind: "map", T: "map[int8]string"}, {Kind: "map", T: "map[uint16]int"}, {Kind: "map", T: "StrIntM"}, {Kind: "map", T: "StrIntM"}, {Kind: "map", T: "Hdr"}, {Kind: "map", T: "Hdr"}, {Kind: "map", T: "Hdr"},
 	{Kind: "slice", T: "[]int"}, {Kind: "slice", T: "[]int8"}, {Kind: "slice", T: "[]uint16"}, {Kind: "slice", T: "[]int64"}, {Kind: "slice", T: "[]float32"},
 	{Kind: "slice", T: "[]float64"}, {Kind: "slice", T: "[]string"}, {Kind: "slice", T: "[]bool"}, {Kind: "slice", T: "[]any"}, {Kind: "slice", T: "IntSl"},
 	{Kind: "parray", T: "*[3]int"}, {Kind: "parray", T: "*[4]int"}, {Kind: "parray", T: "*[3]int8"}, {Kind: "parray", T: "*[3]string"}, {Kind: "parray", T: "*[3]float32"},
@@ -635,7 +663,18 @@ func genHist(t *rapid.T) histCase {
 			if ty.Key().Kind() != reflect.String {
 				keys = mapKeyPoolInt
 			}
-			s.Op = pick("mop", map[string]int{"set": 35, "define": 5, "del": 15, "get": 8, "call": 5, "gomut": 22, "godel": 10})
+			goKeys := []string{"a", "b", "c", "k", "x y", "", "0", "7", "zzz"}
+			if methods := m16.MethodNames(ty); len(methods) > 0 { // keys spelled like the methods of the named map type
+				keys = append(append([]string(nil), keys...), methods...)
+				keys = append(keys, methods...)
+				goKeys = append(goKeys, methods...)
+				goKeys = append(goKeys, methods...)
+			}
+			mw := map[string]int{"set": 35, "define": 5, "del": 15, "get": 8, "call": 5, "gomut": 22, "godel": 10}
+			if ty.NumMethod() > 0 {
+				mw["call"], mw["get"] = 14, 12
+			}
+			s.Op = pick("mop", mw)
 			switch s.Op {
 			case "set", "define":
 				s.Key = rapid.SampledFrom(keys).Draw(t, "mkey")
@@ -644,9 +683,15 @@ func genHist(t *rapid.T) histCase {
 				s.Key = rapid.SampledFrom(keys).Draw(t, "mkey")
 			case "call":
 				s.Method = "Total"
+				if methods := m16.MethodNames(ty); len(methods) > 0 {
+					s.Method = rapid.SampledFrom(methods).Draw(t, "mapMethod")
+					if m, _ := ty.MethodByName(s.Method); m.Type.NumIn() == 2 {
+						s.Args = []m16.JV{m16.JStr(rapid.SampledFrom(keys).Draw(t, "methodKeyArg"))}
+					}
+				}
 			case "gomut", "godel":
 				if ty.Key().Kind() == reflect.String {
-					s.Key = rapid.SampledFrom([]string{"a", "b", "c", "k", "x y", "", "0", "7", "zzz"}).Draw(t, "gkey")
+					s.Key = rapid.SampledFrom(goKeys).Draw(t, "gkey")
 				} else if m16.IsUint(ty.Key().Kind()) {
 					s.Key = rapid.SampledFrom([]string{"0", "1", "7", "100"}).Draw(t, "gkey")
 				} else {
@@ -701,4 +746,74 @@ func sortStrings(s []string) {
 			s[j], s[j-1] = s[j-1], s[j]
 		}
 	}
+}
+
+var numericKindNames = []string{"int8", "int16", "int32", "int64", "int", "uint8", "uint16", "uint32", "uint64", "uint", "float32", "float64"}
+
+// genGoList: a bridged Go slice (or pointer to a Go array) of some numeric element kind, holding
+// values aimed at the boundaries of the target element kind - the argument a Go result or field is.
+func genGoList(t *rapid.T, target reflect.Kind) m16.JV {
+	src := rapid.SampledFrom(numericKindNames).Draw(t, "srcElemKind")
+	fits := func(x float64) bool {
+		if src == "float64" {
+			return true
+		}
+		return m16.FormOK(x, "go:"+src)
+	}
+	n := rapid.IntRange(0, 4).Draw(t, "golen")
+	var e []m16.JV
+	for i := 0; i < n; i++ {
+		var x float64
+		if rapid.IntRange(0, 2).Draw(t, "goelemsrc") > 0 {
+			x = rapid.SampledFrom(kindBoundaries(target)).Draw(t, "goelemBoundary")
+		} else {
+			x = float64(rapid.IntRange(-300, 300).Draw(t, "goelemSmall"))
+		}
+		if !fits(x) {
+			x = float64(rapid.IntRange(0, 127).Draw(t, "goelemFallback"))
+		}
+		e = append(e, m16.JNum(x, "lit"))
+	}
+	spec := "gosl:" + src
+	if rapid.IntRange(0, 3).Draw(t, "ptrArray") == 0 {
+		spec = "gosl:*" + src
+	}
+	return m16.JSp(spec, e...)
+}
+
+// genReentrant: a value for parameter type ty whose conversion runs script code that calls f again
+// with inner; ok is false when no conversion of that type runs script code.
+func genReentrant(t *rapid.T, ty reflect.Type, inner []m16.JV) (m16.JV, bool) {
+	var v m16.JV
+	switch k := ty.Kind(); {
+	case k == reflect.String:
+		v = m16.JSp("tostr", m16.JStr(rapid.SampledFrom(stringPool).Draw(t, "reRet")))
+	case k == reflect.Interface && ty.NumMethod() == 0:
+		v = m16.JObj([]string{"a", "b"}, []m16.JV{genPrimitive(t), genPrimitive(t)})
+		v.Get = rapid.IntRange(0, 1).Draw(t, "getterAt")
+	case k == reflect.Map && ty.Key().Kind() == reflect.String, k == reflect.Struct, k == reflect.Ptr && ty.Elem().Kind() == reflect.Struct:
+		base := ty
+		if base.Kind() == reflect.Ptr {
+			base = base.Elem()
+		}
+		v = genFor(t, base, 1)
+		for tries := 0; (v.K != "obj" || len(v.Keys) == 0) && tries < 6; tries++ {
+			v = genFor(t, base, 1)
+		}
+		if v.K != "obj" || len(v.Keys) == 0 {
+			return v, false
+		}
+		seen := map[string]bool{}
+		for _, key := range v.Keys { // an accessor may not share its name with another property of the literal
+			if seen[key] {
+				return v, false
+			}
+			seen[key] = true
+		}
+		v.Get = rapid.IntRange(0, len(v.Keys)-1).Draw(t, "getterAt")
+	default:
+		return v, false
+	}
+	v.HasRe, v.Re = true, inner
+	return v, true
 }
